@@ -1,0 +1,16 @@
+//go:build verif && !no_workceptor
+
+package workceptor
+
+// VerifNewWatcher, when set by a simulation harness, replaces the inotify watcher that
+// BaseWorkUnit.Init would otherwise create (a real inotify descriptor cannot live inside a
+// simulated clock).
+var VerifNewWatcher func() WatcherWrapper
+
+func verifWatcher() WatcherWrapper {
+	if VerifNewWatcher != nil {
+		return VerifNewWatcher()
+	}
+
+	return nil
+}
